@@ -305,8 +305,10 @@ namespace c09
 
     // two-element containers: at nesting depth 0 and 1 every ordered pair of element values when the element
     // alphabet has at most 99 values (n*n pairs); otherwise, and in deeper positions, each element value followed
-    // by its successor in the element list (n pairs). No type then exceeds 10^4 values.
-    inline bool all_pairs(int d, long n) { return d <= 1 && n <= 99; }
+    // by its successor in the element list (n pairs). No type then exceeds 10^4 (thorough: 6.3*10^4) values.
+    // (thorough tier: larger alphabets in nested positions and all pairs up to 250 element values.)
+    extern int level; // 0 = quick, 1 = thorough; set by the sub-check body before anything is counted
+    inline bool all_pairs(int d, long n) { return d <= 1 && n <= (level ? 250 : 99); }
     inline long container_count(int d, long n) { return 1 + n + (all_pairs(d, n) ? n * n : n); }
     inline void pair_of(int d, long n, long j, long &a, long &b)
     {
@@ -325,9 +327,9 @@ namespace c09
     template <class T> long count(int d)
     {
         if constexpr (is_scalar_v<T>)
-            return d == 0 ? 6 : d == 1 ? 3 : 2;
+            return level ? (d <= 1 ? 6 : d == 2 ? 3 : 2) : (d == 0 ? 6 : d == 1 ? 3 : 2);
         else if constexpr (std::is_same<T, str>::value)
-            return d == 0 ? 6 : d == 1 ? 4 : d == 2 ? 3 : 2;
+            return level ? (d <= 1 ? 6 : d == 2 ? 4 : 2) : (d == 0 ? 6 : d == 1 ? 4 : d == 2 ? 3 : 2);
         else if constexpr (is_vector<T>::value)
         {
             long n = count<typename T::value_type>(d + 1);
@@ -531,7 +533,7 @@ namespace c09
     struct TypeEntry
     {
         std::string name, cls;
-        long count = 0;
+        long (*count)() = nullptr; // number of values at the current tier
         int depth = 0;
         void (*run)(long) = nullptr;
     };
@@ -605,7 +607,7 @@ namespace c09
                 TypeEntry e;
                 e.name = tname<X>();
                 e.cls = tclass<X>();
-                e.count = count<X>(0);
+                e.count = [] { return count<X>(0); };
                 e.depth = tdepth<X>();
                 e.run = &RUN<X>::run;
                 set_type(K, e);
